@@ -1,5 +1,5 @@
 CONSTANTS
-  Deviations = {"MtxfAlways"}
+  Deviations = {"MtxfAlways", "BmeshNotMop"}
   MhdrFileRelative = FALSE
   NK = 256
   MaxRounds = 4
